@@ -396,4 +396,20 @@ theorem applyCaptureOps_spec (fv : Val) (D : List Val) (cs : List CapSrc) :
         rw [this, ← hlen, set_mid]
         simp
 
+/-! ### well-formed parameter lists and the frame layout -/
+
+theorem dedup_length_of_nodup (l : List Bind.Name) (h : nodupB l = true) : (dedup l).length = l.length := by
+  induction l with
+  | nil => rfl
+  | cons x xs ih =>
+    simp only [nodupB, Bool.and_eq_true, Bool.not_eq_true'] at h
+    have hx : x ∉ xs := by simpa using h.1
+    simp [dedup, hx, ih h.2]
+
+theorem params_length (ps : List Param) : ps.length = (topNames ps).length + placeholders ps := by
+  induction ps with
+  | nil => rfl
+  | cons p ps ih =>
+    cases p <;> simp [topNames, placeholders, ih] <;> omega
+
 end KotoVerif.C02
